@@ -78,6 +78,14 @@ class Ref:
         return "Ref(%s)" % self.t
 
 
+NONE_T = z3.IntVal(-1)          # id of None among kinded heap objects (kind[-1] == 0)
+
+
+class SliceV:
+    def __init__(self, lo, hi):
+        self.lo, self.hi = lo, hi
+
+
 class LRef:
     """list object with identity on the z3 heap (L_n, L_e)"""
     def __init__(self, lid, mk=None):
